@@ -247,6 +247,36 @@ func (b *builder) primitives() {
 				[]int{5, uv}, hr[:], []bool{false, false})
 		}
 	}
+
+	// count ladder: counts around every power of two (a threshold, a packed key, a 16-bit id or a table
+	// filled in blocks lies far above the small grids)
+	kmax := pick(b.thorough, 11, 14)
+	var lad []int
+	for k := 5; k <= kmax; k++ {
+		lad = append(lad, 1<<k-1, 1<<k, 1<<k+1, 3<<(k-1)+1)
+	}
+	for _, n := range lad {
+		for _, gen := range []string{"primitives.UVSphere", "primitives.UVSphereUnwelded"} {
+			for _, r := range []int{2, 3, 8, 9} {
+				if r*n <= 40000 {
+					b.add(gen, gen, "", []int{r, n}, []float64{0.5}, nil)
+				}
+			}
+			for _, c := range []int{3, 4} {
+				b.add(gen, gen, "", []int{n, c}, []float64{0.5}, nil)
+			}
+		}
+		for _, rc := range [][2]int{{3, n}, {8, n}, {9, n}, {n, 4}} {
+			if rc[0]*rc[1] <= 40000 {
+				b.add("primitives.Hemisphere.UV", "primitives.Hemisphere.UV", "", []int{rc[0], rc[1]}, []float64{0.5}, []bool{true})
+			}
+		}
+		b.add("primitives.Circle.ToMesh", "primitives.Circle.ToMesh", "", []int{n, 1}, []float64{0.5}, nil)
+		b.add("primitives.Cone.ToMesh", "primitives.Cone.ToMesh", "", []int{n}, []float64{1, 0.5}, nil)
+		for _, uv := range []int{0, 8} {
+			b.add("primitives.Cylinder.ToMesh", "primitives.Cylinder.ToMesh", "", []int{n, uv}, []float64{1, 0.5}, []bool{false, false})
+		}
+	}
 }
 
 func stripUVs(mode int) *primitives.StripUVs {
